@@ -126,6 +126,17 @@ CHECKS = {
          "built from the exact point classification and compared as a multiset of rows.",
          "Row order and dtypes are pandas merge semantics and not compared; pool points are off polygon rings.",
          "DESIGN.md section 3/C05"),
+ "C06": ("exploration", "E1",
+         "bounded exhaustive differential enumeration: every partition count x every row mask x provenances x operations, Dask vs computed pandas frame",
+         "For 4 base frames (two geometry columns, missing/empty rows) every from_pandas partition count 1..n and EVERY "
+         "row mask (2^n) applied as a Dask filter (with and without previously cached partition bounds) - hence every "
+         "pattern of empty, all-missing and covered partitions - plus set_geometry, pack_partitions and parquet "
+         "read-back with geometry=/bounds=; on each, cx (frame and series, lattice boxes), cx_partitions, bounds, "
+         "total_bounds, area, length, intersects_bounds and sjoin inner/left are compared with the same operation on the "
+         "computed pandas frame with the same active geometry.",
+         "The pandas side is the oracle (tied to exact oracles by C01/C04/C05); n=4 quick (plus a slice of n=6), n=6 "
+         "thorough; pack_partitions raising is exempt; known finding F18 (dask phantom partition after pack) is listed.",
+         "DESIGN.md section 3/C06"),
 }
 
 NOT_YET = {}
